@@ -39,6 +39,21 @@ def mc_register(tag, declset, slots, invariants, properties, workers=8, timeout=
             "invariants": invariants, "properties": properties, "actions": acts, "wall_s": round(r["wall"], 1)}
 
 
+def tlaps_leg(theorems):
+    """TLAPS proofs of the algebraic core for unbounded width (spec/RegisterProofs.tla)"""
+    import shutil as _sh
+    _sh.rmtree(os.path.join(vlib.SPEC, ".tlacache"), ignore_errors=True)
+    t0 = time.time()
+    rc, out = vlib.sh(["timeout", "900", "tlapm", "--threads", "8", "RegisterProofs.tla"], cwd=vlib.SPEC)
+    _sh.rmtree(os.path.join(vlib.SPEC, ".tlacache"), ignore_errors=True)
+    m = re.search(r"All (\d+) obligations? proved", out)
+    if rc != 0 or not m:
+        raise ToolError("tlapm did not prove RegisterProofs.tla:\n" + out[-2000:])
+    return {"module": "RegisterProofs.tla", "theorems_used": theorems, "obligations": int(m.group(1)), "discharged": int(m.group(1)),
+            "checker_cmd": "tlapm --threads 8 RegisterProofs.tla", "wall_s": round(time.time() - t0, 1),
+            "scope": "unbounded register width, arbitrary position sequences (Seq(Nat)); binds to the code only through the trace legs"}
+
+
 # =============================================================================================
 # implementation -> specification: recorded traces validated by TLC (RegisterTrace.tla)
 def decl_by_id(decls, i):
@@ -150,6 +165,62 @@ def trace_leg(pid, tier, seed, corpus_name, decls, declfile, modes, budget, prof
     return stats
 
 
+def sim_leg(pid, tier, seed, crate, decls, declfile, num, depth, profile="dev"):
+    """specification -> implementation: TLC simulates Register.tla (SimRegister.tla), the harness replays each behaviour on the
+    real object and compares the abstract state after every step."""
+    t0 = time.time()
+    r = vlib.tlc("SimRegister", "SimRegister.cfg", env={"DECLFILE": declfile, "SIM_DEPTH": str(depth)},
+                 simulate=["num=%d" % num], extra=["-depth", str(depth + 1), "-seed", str(seed)], timeout=1500, heap="4g")
+    if "Error:" in r["out"] and "REPLAY" not in r["out"]:
+        raise ToolError("SimRegister failed:\n" + r["out"][-3000:])
+    if "is violated" in r["out"]:
+        raise ToolError("the specification violates its own invariant along a simulated behaviour:\n" + r["out"][-3000:])
+    behs = []
+    seen = set()
+    for line in r["out"].splitlines():
+        m = re.match(r'<<"REPLAY", "(.*)">>\s*$', line)
+        if not m:
+            continue
+        b = json.loads(m.group(1).replace('\\"', '"'))
+        key = json.dumps(b["steps"][:-1], sort_keys=True)
+        if key in seen:
+            continue
+        seen.add(key)
+        behs.append(b)
+    if not behs:
+        raise ToolError("SimRegister produced no behaviour:\n" + r["out"][-2000:])
+    bl = lambda v: ",".join(str(x) for x in v) if v else "-"
+    path = os.path.join(WORK, "traces", "%s-behaviours.txt" % pid)
+    os.makedirs(os.path.dirname(path), exist_ok=True)
+    with open(path, "w") as fh:
+        for k, b in enumerate(behs):
+            fh.write("B %d %d\n" % (k, b["decl"]))
+            for st in b["steps"]:
+                fh.write("S %s %s %s %d %d %s %s %s %s %s %s\n" % (st["op"], st["s"], st["t"], st["j"], st["i"], bl(st["v"]), bl(st["a"]), bl(st["b"]),
+                                                                   st["out"]["k"], bl(st["out"]["v"]), st["out"]["name"] or "-"))
+    rc, out = vlib.sh([vlib.bin_path(crate, profile)], env={"REPLAY_FILE": path}, timeout=1200)
+    m = re.search(r"REPLAYED (\d+) (\d+)", out)
+    if rc != 0 or not m:
+        raise ToolError("behaviour replay failed rc=%d:\n%s" % (rc, out[-2000:]))
+    mism = [l for l in out.splitlines() if l.startswith("MISMATCH")]
+    if mism:
+        mm = re.match(r"MISMATCH beh=(\d+) step=(\d+)", mism[0])
+        b = behs[int(mm.group(1))]
+        d = decl_by_id(decls, b["decl"])
+        info = {"property": pid, "kind": "behaviour", "decl": d, "rust_source": "\n".join(rustgen.decl_source(d)), "mismatch": mism[0],
+                "behaviour": b["steps"][: int(mm.group(2))], "seed": seed, "profile": profile,
+                "explanation": "a behaviour of spec/Register.tla generated by TLC was replayed on the real object; after the last step shown "
+                               "the real state / observation differs from the specification's"}
+        raise Violation(write_replay(pid, info))
+    ops = {}
+    for b in behs:
+        for st in b["steps"]:
+            ops[st["op"]] = ops.get(st["op"], 0) + 1
+    return {"behaviours": len(behs), "steps_replayed": int(m.group(2)), "depth": depth, "ops": ops, "tlc_states_generated": r["generated"],
+            "declarations_hit": len({b["decl"] for b in behs}), "wall_s": round(time.time() - t0, 1),
+            "sample": {"decl": behs[0]["decl"], "steps": behs[0]["steps"][:3]}}
+
+
 def replay(pid, path):
     info = json.load(open(path))
     if info.get("kind") == "trace":
@@ -195,6 +266,10 @@ def replay(pid, path):
 
 
 # =============================================================================================
+PROOFS = {}
+SIMS = {}
+
+
 def finish(pid, tier, seed, t0, mc, legs, rule, assumptions, extra=None, level="model_checking"):
     states = sum(m["distinct"] for m in mc)
     transitions = sum(m["generated"] for m in mc)
@@ -219,6 +294,12 @@ def finish(pid, tier, seed, t0, mc, legs, rule, assumptions, extra=None, level="
            "repo": vlib.REPO}
     if extra:
         cov.update(extra)
+    if pid in PROOFS:
+        cov["tlaps"] = PROOFS[pid]
+    if pid in SIMS:
+        cov["spec_to_impl_replay"] = SIMS[pid]
+        cov["traces_validated_against_impl"] += SIMS[pid]["behaviours"]
+        cov["transitions"] += SIMS[pid]["steps_replayed"]
     vlib.write_evidence(pid, tier, seed, level, cov, assumptions, time.time() - t0)
 
 
@@ -319,6 +400,7 @@ def c02(pid, tier, seed, t0):
     decls = copyd(star) + copyd(model) + copyd(rnd)
     declfile = save_decls("C02", decls)
     legs = [trace_leg(pid, tier, seed, "star+model+rand", decls, declfile, "write,table", q(tier, 1, 4), crate="rt-c02")]
+    PROOFS["C02"] = tlaps_leg(["Frame", "RoundTrip"])
     finish(pid, tier, seed, t0, mc, legs,
            "every writable contiguous field written through with_ AND set_ at (raw, value) pairs: raws {0, ones, field mask, complement, "
            "random} x values {0, ones, walking 1/0 at both ends, random}; after each write the result's raw value AND storage integer, "
@@ -352,6 +434,7 @@ def c04(pid, tier, seed, t0):
     decls = copyd(nc) + copyd(rnd)
     declfile = save_decls("C04", decls)
     legs = [trace_leg(pid, tier, seed, "nc+rand", decls, declfile, "get,write,table", q(tier, 2, 6), crate="rt-c04")]
+    PROOFS["C04"] = tlaps_leg(["Frame", "RoundTrip (Inj(p) is C04's exclusion of duplicate bits)"])
     finish(pid, tier, seed, t0, mc, legs,
            "non-contiguous range lists (bit reversal, byte swap, RISC-V immediates, reversed/shuffled lists, arrays of lists with "
            "explicit stride including interleaving elements, ascending back-to-back lists) plus seeded DeclGen lists of 2..3 disjoint "
@@ -436,6 +519,7 @@ def c11(pid, tier, seed, t0):
                                               lambda ev: "%s:u%d:%s" % ("accept" if ev["accepted"] else "reject", fam[ev["decl"]]["n"], rustgen.attr_text(fam[ev["decl"]]["fields"][0]).replace(" ", "")))
     for line in known:
         print(line)
+    PROOFS["C11"] = tlaps_leg(["UpperBitsStayZero"])
     mc.append({"config": "verdict events (layouts reaching above bit N-1 on 13 arbitrary-int bases, with controls) validated against Decl!Valid",
                "distinct": vstates, "generated": len(vev), "wall_s": 0})
     finish(pid, tier, seed, t0, mc, legs,
@@ -456,6 +540,8 @@ def c12(pid, tier, seed, t0):
     decls = copyd(model) + copyd(nc) + copyd(rnd)
     declfile = save_decls("C12", decls)
     legs = [trace_leg(pid, tier, seed, "model+nc+rand(overlapping)", decls, declfile, "history", q(tier, 3, 12), crate="rt-c12")]
+    PROOFS["C12"] = tlaps_leg(["LastWriteWinsStep", "DisjointCommute", "Frame"])
+    SIMS["C12"] = sim_leg(pid, tier, seed, "rt-c12", decls, declfile, q(tier, 60, 1500), q(tier, 30, 60))
     finish(pid, tier, seed, t0, mc, legs,
            "random histories (60 operations each: with_, set_, reads, copies, re-wraps, resets, out-of-range indices) over two object "
            "slots on the model declarations, Q-nc and seeded DeclGen layouts with OVERLAPPING fields; the specification's shadow "
